@@ -1,6 +1,8 @@
 """History generation.  Every random choice derives from one `random.Random`; a history is generated *while* it is
 executed on the implementation (placeholders such as "some live group" are resolved against the real state), and
 the resolved op lines are what is replayed on the model and stored in replay files."""
+import random
+
 from .impl import ImplWorld
 
 CBS = "nnnppcx"
@@ -43,33 +45,52 @@ def profile(**kw):
     return p
 
 
+def gen_hook_ops(rng):
+    """the pool calls user code makes at one hook point (the same alphabet at every point)"""
+    ops = []
+    for _ in range(rng.randint(1, 2)):
+        c = rng.random()
+        if c < 0.25:
+            ops.append("o")
+        elif c < 0.40:
+            ops.append("c" + ",".join(str(rng.randint(0, 6)) for _ in range(rng.randint(0, 2))))
+        elif c < 0.50:
+            ops.append("g" + rng.choice(["G", "H", "apply-worker-group-0", "nope"]))
+        elif c < 0.58:
+            ops.append("a")
+        elif c < 0.66:
+            ops.append("l")
+        elif c < 0.74:
+            ops.append("u")
+        elif c < 0.88:
+            ops.append("t" + str(rng.randint(-1, 2)))
+        else:
+            ops.append("A" + str(rng.randint(0, 2)))
+    return ops
+
+
 def gen_hooks(rng, p_any):
     if rng.random() > p_any:
         return "-"
     parts = []
     for pt in "secp":
         if rng.random() < 0.35:
-            ops = []
-            for _ in range(rng.randint(1, 2)):
-                c = rng.random()
-                if c < 0.25:
-                    ops.append("o")
-                elif c < 0.40:
-                    ops.append("c" + ",".join(str(rng.randint(0, 6)) for _ in range(rng.randint(0, 2))))
-                elif c < 0.50:
-                    ops.append("g" + rng.choice(["G", "H", "apply-worker-group-0", "nope"]))
-                elif c < 0.58:
-                    ops.append("a")
-                elif c < 0.66:
-                    ops.append("l")
-                elif c < 0.74:
-                    ops.append("u")
-                elif c < 0.88:
-                    ops.append("t" + str(rng.randint(-1, 2)))
-                else:
-                    ops.append("A" + str(rng.randint(0, 2)))
-            parts.append(pt + ":" + ";".join(ops))
+            parts.append(pt + ":" + ";".join(gen_hook_ops(rng)))
     return "|".join(parts) or "-"
+
+
+def gen_next_hooks(rng, prof):
+    """hook point `n` — pool calls a worker makes each time it resumes from an await and goes on to a later one — for a
+    gated worker that has later awaits (modes g1 / g2).  Drawn from a *copy* of the generator's state, so the history
+    around the spec is the one the same seed produced before the point existed."""
+    p_n = min(0.6, 2 * prof["hooks"])
+    if p_n <= 0:
+        return None
+    sub = random.Random()
+    sub.setstate(rng.getstate())
+    if sub.random() >= p_n:
+        return None
+    return "n:" + ";".join(gen_hook_ops(sub))
 
 
 def gen_spec(rng, prof, ctx=None):
@@ -78,16 +99,19 @@ def gen_spec(rng, prof, ctx=None):
     suspension points (a modest share of the gated workers of every profile: `multi_await`)"""
     hooks = gen_hooks(rng, prof["hooks"])
     cbs = prof.get("cbs", CBS)
-    if ctx is not None and has_unlock(hooks):
-        if ctx.closing:
-            hooks = "-"
-        else:
-            ctx.unlock_hooks = True
     # swallow: 0 = the worker lets a CancelledError through, 1 = catches it and returns, 2 = catches the first one and goes
     # on awaiting (and lets the next one through)
     mode = rng.choice(prof.get("modes", "ggggrx"))
     if mode == "g" and rng.random() < prof.get("multi_await", 0.2):
         mode = "g" + rng.choice("12")
+        nxt = gen_next_hooks(rng, prof)
+        if nxt is not None:
+            hooks = nxt if hooks == "-" else hooks + "|" + nxt
+    if ctx is not None and has_unlock(hooks):
+        if ctx.closing:
+            hooks = "-"
+        else:
+            ctx.unlock_hooks = True
     return [mode, rng.choice(prof.get("sw", "0001")), rng.choice(cbs), rng.choice(cbs),
             rng.choice("00001"), rng.choice("1111111110"), hooks]
 
